@@ -390,7 +390,7 @@ class Driver:
         rets.append(work)
         rets.append(do("Flush") if work == "ok" else work)
         r.events, r.nsql, r.stmts = evs, nsql, stmts
-        return rets
+        return "/".join(rets)
 
     def compare(self, act):
         o = act["obs"]
